@@ -88,6 +88,7 @@ class Aff:
         return None
 
     BOUNDS = {}     # loop symbols: sym -> (lo Aff inclusive, hi Aff exclusive)
+    FACTS = []      # path facts: affine forms known to be >= 0 inside the branch being interpreted
 
     def _bound(self, lower):
         """affine lower (upper) bound obtained by replacing bounded loop symbols by their extreme values"""
@@ -154,6 +155,10 @@ class Aff:
         return lo >= k
 
     def nonneg(self):
+        for f_ in Aff.FACTS:
+            # inside a branch whose test established f_ >= 0: self = f_ + (non-negative constant)
+            if self.t == f_.t and self.c >= f_.c:
+                return True
         e = self._bound(True) if any(s in Aff.BOUNDS for s in self.t) else self
         if e is None:
             return None
@@ -770,6 +775,8 @@ def num_join(a, b):
     from . import cover as _cv
     r.cover = _cv.join(a.cover, b.cover)
     r.uninit = a.uninit or b.uninit
+    if a.fsf is not None and b.fsf is not None and a.fsf == b.fsf:
+        r.fsf = a.fsf
     r.view_of = a.view_of | b.view_of
     r.mid = a.mid if a.mid == b.mid else None
     r.whole = a.whole and b.whole
